@@ -536,3 +536,35 @@ func H_lifecycle_readerr() {
 	verifCheckClosed(w)
 	verifReach("lifecycle-readerr")
 }
+
+// C10: an overflow is announced on Errors; until somebody receives it the
+// watcher still accepts Add/Remove, and afterwards it keeps delivering.
+func H_overflow_ctl() {
+	verifKReset()
+	w := verifNewInotifyN(0, 1, 0)
+	verifSetupTable(w, 2)
+	verifK.nIno = 3
+	n := verifInt("n")
+	verifAssume(n == 32)
+	verifK.script[0] = verifRead{n: n}
+	verifK.nScript = 1
+	verifK.blockAfter = true
+	verifFillBuffer = func(i int, b []byte, n int) {
+		if i == 0 {
+			verifConstrainRecords(b, n, 2, 16, false)
+			verifAssume(verifRecs[0].mask == unix.IN_Q_OVERFLOW)
+			verifAssume(verifRecs[1].mask == unix.IN_MODIFY && uint32(verifRecs[1].wd) == verifTable[0].wd && verifRecs[1].cookie == 0)
+		}
+	}
+	go w.readEvents()
+	verifQuiesce() // the reader is parked offering ErrEventOverflow; nobody has received it yet
+	verifK.addResolve = 2
+	verifAssert(w.Add("/new") == nil, "Add is accepted while the overflow error is still waiting to be received")
+	verifAssert(w.Remove("/new") == nil, "Remove is accepted while the overflow error is still waiting to be received")
+	err := <-w.Errors
+	verifAssert(errors.Is(err, ErrEventOverflow), "the overflow is announced as ErrEventOverflow")
+	ev := <-w.Events
+	verifAssert(ev.Op == Write && ev.Name == "/t", "the record after the overflow marker is still delivered")
+	verifAssert(w.Close() == nil, "Close")
+	verifReach("overflow-ctl")
+}
